@@ -386,9 +386,7 @@ def _check_snapshot(p, w, fired, err, root, V, raised_calls):
         if _exc_id(snap.exception) not in planned:
             V("snapshot", "snapshot-exception-differs", {"fn": f.fn, "got": repr(_exc_id(snap.exception))})
             return
-        from sim.userfuncs import Uncopyable
-
-        unsavable = any(isinstance(v2, Uncopyable) for v2 in snap.kwargs.values())  # cannot be pickled by nature
+        unsavable = "Uncopyable(" in repr(snap.kwargs)  # (possibly nested) value that cannot be pickled by nature
         for label, s in (("direct", snap),) + (() if unsavable else (("saved", None),)):
             if s is None:
                 path = os.path.join(root, f"snap-{f.fn}.pkl")
